@@ -264,6 +264,7 @@ func (l *Loader) Load(mod string) (*Prog, error) {
 		recordAnchors(p)
 	}
 	buildKeySubst(p)
+	registerUnlockers(p)
 	return p, nil
 }
 
